@@ -350,6 +350,7 @@ func judge(col *core.Collector, t *Trial, prop string) (violation string, nontri
 		col.Count("lin.operations", int64(lr.Ops))
 		col.Count("lin.evict_operations", int64(lr.Evicts))
 		col.Count("lin.load_installs", int64(lr.Installs))
+		col.Count("lin.load_installs_bounded_by_waiter", int64(lr.WaiterBounded))
 		col.Max("lin.overlap", int64(lr.MaxOverlap))
 		if lr.Unknown > 0 {
 			col.Inconclusive(fmt.Sprintf("trial %d: %d key histories timed out in the checker", cfg.Index, lr.Unknown))
